@@ -366,9 +366,14 @@ fn c07_errors(rep: &mut Report, r: &mut Rng, shard: u64, nshards: u64) {
                         // same code whose diagnostic has the same LENGTH but other bytes was applied (9), the
                         // application itself had put code + text/plain + an equally long body there (10), or only
                         // the length and content format coincide while the code differs (11)
-                        let other: Vec<u8> = err.message.bytes().rev().map(|b| if b == b'x' { b'y' } else { b ^ 0x01 }).collect();
-                        let other = String::from_utf8_lossy(&other).into_owned();
-                        let other = if other.len() == err.message.len() { other } else { "z".repeat(err.message.len()) };
+                        // (long diagnostics get a plain filler: byte-wise work on 70 kB is what the interpreter lane cannot afford)
+                        let other = if err.message.len() > 512 {
+                            "z".repeat(err.message.len())
+                        } else {
+                            let o: Vec<u8> = err.message.bytes().rev().map(|b| if b == b'x' { b'y' } else { b ^ 0x01 }).collect();
+                            let o = String::from_utf8_lossy(&o).into_owned();
+                            if o.len() == err.message.len() { o } else { "z".repeat(err.message.len()) }
+                        };
                         match (premut, err.code) {
                             (9, Some(c)) => {
                                 let _ = guard(|| rq.apply_from_error(HandlingError::with_code(c, other.clone())));
